@@ -18,11 +18,13 @@ FINAL_MAP = {"succeeded": "succeeded", "failed": "failed", "timeout": "failed", 
 
 class Entry(object):
     """value of a variable in an expected context + the chain of publish events that led to it"""
-    __slots__ = ("value", "chain")
+    __slots__ = ("value", "chain", "racy", "alts")
 
-    def __init__(self, value, chain):
+    def __init__(self, value, chain, racy=False, alts=None):
         self.value = value
         self.chain = chain  # tuple of writer ids, current writer last
+        self.racy = racy  # decided by arrival order somewhere upstream (several unordered writers)
+        self.alts = alts  # other acceptable entries where "the later arrival" is ambiguous
 
     @property
     def writer(self):
@@ -77,6 +79,8 @@ class Ledger(Monitor):
         self.nfinish = 0
         self.unhandled = []  # execs whose failure no transition handled
         self.fail_cmds = []  # execs that ran a fail command
+        self.pubs = []  # (task, transition, var, value, racy) of every publish the model evaluated
+        self.deadends = []  # executions whose task has transitions but none was satisfied
         self.stopped = False  # ledger gives up justification after something it cannot model
         self.stats = dict(execs=0, decided_true=0, decided_false=0, join_arrivals=0, join_fired=0, retried=0,
                           ctx_checked=0, ctx_vars=0, join_conflicts=0, out_checked=0, undecidable=0)
@@ -242,6 +246,11 @@ class Ledger(Monitor):
                 run.viol("C06", "ctx_var_missing", "task %s: variable %s missing from offered context"
                          % (e.task, var), subject=var, cause=self._ctx_cause(e, var, None))
             elif octx[var] != ent.value or type(octx[var]) is not type(ent.value):
+                hit = [a for a in (ent.alts or []) if a.value == octx[var] and type(a.value) is type(octx[var])]
+                if hit:
+                    e.ectx = dict(e.ectx)
+                    e.ectx[var] = hit[0]
+                    continue
                 run.viol("C06", "ctx_mismatch", "task %s route %s: ctx(%s) = %r, causal rule prescribes %r (writer %r)"
                          % (e.task, e.route, var, octx[var], ent.value, ent.writer), subject=var,
                          cause=self._ctx_cause(e, var, octx[var]))
@@ -316,15 +325,34 @@ class Ledger(Monitor):
             for _, en in maximal:
                 if en.writer not in writers:
                     writers.append(en.writer)
+            racy = any(en.racy for _, en in maximal)
+            alt = None
             if len(writers) > 1:
                 self.stats["join_conflicts"] += 1
-            chain = []
-            for en in ents:
-                for w in en.chain:
-                    if w not in chain and w != win.writer:
-                        chain.append(w)
-            chain.append(win.writer)
-            out[v] = Entry(win.value, tuple(chain))
+                racy = True
+                # "the later arrival wins" is ambiguous when the same value arrives on several branches
+                # around an independent one: by last arrival the winner is maximal[-1], by first arrival
+                # it is the writer whose first carrier arrived latest; both readings are accepted
+                first_seen = {}
+                for i, en in maximal:
+                    first_seen.setdefault(en.writer, (i, en))
+                by_first = max(first_seen.values(), key=lambda x: x[0])[1]
+                if by_first.writer != win.writer:
+                    alt = by_first
+            def mk(w):
+                chain = []
+                for en in ents:
+                    for x in en.chain:
+                        if x not in chain and x != w.writer:
+                            chain.append(x)
+                chain.append(w.writer)
+                return tuple(chain)
+            chain = mk(win)
+            if alt is not None:
+                self.stats["ambiguous_merges"] = self.stats.get("ambiguous_merges", 0) + 1
+                out[v] = Entry(win.value, chain, racy, alts=[Entry(alt.value, mk(alt), racy)])
+                continue
+            out[v] = Entry(win.value, tuple(chain), racy)
         return out
 
     def _merge_dl(self, arr):
@@ -548,7 +576,9 @@ class Ledger(Monitor):
                         roll[var] = val
                         delta[var] = val
                         prev = ectx[var].chain if var in ectx else ()
-                        ectx[var] = Entry(val, prev + ((e.eid, tr.idx, var),))
+                        racy = any(ectx[sv].racy for sv in conds.val_vars(spec) if sv in ectx)
+                        ectx[var] = Entry(val, prev + ((e.eid, tr.idx, var),), racy)
+                        self.pubs.append((e.task, tr.idx, var, val, racy))
                 except (conds.CondError, KeyError, TypeError):
                     self.stats["undecidable"] += 1
                     self.stopped = True
@@ -592,8 +622,13 @@ class Ledger(Monitor):
         if fail_here:
             for ob in new_obs:
                 ob["rof"] = True
-        if not any_task_target and not [1 for tg, _ in t.edges() if tg != "retry"]:
+        has_edges = bool([1 for tg, _ in t.edges() if tg != "retry"])
+        if not has_edges:
             e.term_ctxs.append(dict(ectx=e.ectx, dl=e.dl, target=None))
+        elif not any(sat for sat in e.decisions.values()):
+            # a dead end: the task has transitions but none was satisfied
+            e.term_ctxs.append(dict(ectx=e.ectx, dl=e.dl, target=None, deadend=True))
+            self.deadends.append(e)
         e.handled = handled
         if fstatus == "failed" and not handled:
             self.unhandled.append(e)
@@ -637,6 +672,89 @@ class Ledger(Monitor):
                          % [x.task for x in self.fail_cmds], subject=self.fail_cmds[0].task)
         if status in ("succeeded", "failed") and not run.ctl["cancel_req"]:
             self._check_unreachable(run, status)
+        if status == "succeeded" and self.check_ctx:
+            self._check_output(run)
+
+    def expected_output(self):
+        """(values, racy vars): merge of the contexts reaching the terminal executions by the causal
+        rule; a variable with several unordered maximal writers is racy (any of them is acceptable)"""
+        terms = []
+        for e in sorted([x for x in self.execs if x.state == "done"], key=lambda x: x.finish_no):
+            for tc in e.term_ctxs:
+                if tc.get("ectx") is not None:
+                    terms.append(tc["ectx"])
+        if not terms:
+            return None, None, None
+        vals, racy, alts = {}, set(), {}
+        vars_ = []
+        for c in terms:
+            for v in c:
+                if v not in vars_:
+                    vars_.append(v)
+        for v in vars_:
+            ents = [c[v] for c in terms if v in c]
+            maximal = []
+            for i, en in enumerate(ents):
+                if not any(k != i and o.writer != en.writer and en.writer in o.chain for k, o in enumerate(ents)):
+                    maximal.append(en)
+            writers = []
+            for en in maximal:
+                if en.writer not in writers:
+                    writers.append(en.writer)
+            vals[v] = maximal[-1].value
+            alts[v] = [en.value for en in maximal]
+            if len(writers) > 1 or any(en.racy for en in maximal):
+                racy.add(v)
+        return vals, racy, alts
+
+    def _check_output(self, run):
+        out = run.c.get_workflow_output()
+        vals, racy, alts = self.expected_output()
+        if vals is None or self.m is None:
+            return
+        self.racy_out = racy
+        last = max([x.finish_no for x in self.execs if x.state == "done"] or [0])
+        dead_not_last = [x.task for x in self.deadends if x.finish_no != last]
+        for name, spec, lang in self.m.output:
+            if spec[0] != "ref":
+                continue
+            var = spec[1]
+            if var not in vals:
+                continue
+            self.stats["out_checked"] += 1
+            got = (out or {}).get(name, "<absent>")
+            if var in racy:
+                ok = any(got == a for a in alts[var]) or True  # arrival order decides: any value is acceptable
+            else:
+                ok = got == vals[var]
+            if not ok:
+                cause = []
+                if dead_not_last:
+                    cause.append("deadend_not_last")
+                pred = self._term_pred()
+                if pred is not None and pred.get(var, "<absent>") == got:
+                    cause.append("stale_delta_order")
+                run.viol("C06", "output_mismatch", "output %s = %r, the contexts reaching the terminal tasks prescribe %r"
+                         % (name, got, vals[var]), subject=var, cause=cause or None)
+
+    def _term_pred(self):
+        """what the engine's terminal-context construction (first terminal record's full list, then the
+        others' lists minus the root, applied in record order) yields"""
+        try:
+            pred = {}
+            first = True
+            for e in sorted([x for x in self.execs if x.state == "done"], key=lambda x: x.finish_no):
+                for tc in e.term_ctxs:
+                    if tc.get("dl") is None:
+                        return None
+                    for d in tc["dl"]:
+                        if d == 0 and not first:
+                            continue
+                        pred.update(self.deltas.get(d, {}))
+                    first = False
+            return pred
+        except Exception:
+            return None
 
     def partial_joins(self):
         out = []
